@@ -1,40 +1,5 @@
 """C04 — stop requests reach running children; completion never outlives a callback."""
-<<<<<<< HEAD
 from ..evt import EventPart
-from ..runner import run_check
-
-
-def parts():
-    ps = [EventPart("evt", report_crashes=True)]
-    try:
-        from .c04_atomic import atomic_parts
-        ps += atomic_parts()
-    except ImportError:
-        pass
-    return ps
-
-
-def prop_modules():
-    import os
-    from .. import vlib
-    mods = ["UnifexModel.Props.C04"]
-    if os.path.exists(os.path.join(vlib.LEAN, "UnifexModel", "Props", "C04_Atomic.lean")):
-        mods.append("UnifexModel.Props.C04_Atomic")
-    return mods
-
-
-def run(tier, seed, replay=None):
-    return run_check(
-        "C04", tier, seed, prop_modules(), parts(),
-        rule="generated sender expressions + event scripts (see C05) with a stop request injected at a random position (before start, between completions, after); "
-             "leaves report whether they saw stop at start and every stop notification, which is compared with the Lean calculus; after each case the operation state is "
-             "destroyed and a late stop request is issued on the root source, so a callback left registered runs on freed memory and is caught by ASan",
-        assumptions=["external events serialised (races of a stop request with the last child: atomic-level parts)", "leaves register exactly one callback on the token they are given"],
-        trusted_extra=["harness/evt/evt.cpp", "tools/evt.py", "g++ 12 ASan/UBSan"],
-        explanation="Theorems (Props/C04): stop_invariant_at_start + stop_invariant_always (the invariant StopInv holds after every event sequence, for every expression and script); "
-                    "reading lemmas stopped_leaf_notified, adaptor_forwards_stop, unstoppable_hides_stop, when_all_stops_children, stop_when_stops_other, successor_starts_stopped. "
-                    "Deregistration-before-completion is decided on the implementation by the late-stop oracle under ASan.")
-=======
 from ..atomic import AtomicPart
 from ..runner import run_check
 
@@ -56,23 +21,34 @@ def atomic_parts():
     ]
 
 
+
+def parts():
+    return [EventPart("evt", report_crashes=True)] + atomic_parts()
+
+
 def run(tier, seed, replay=None):
-    parts = atomic_parts()
     return run_check(
-        "C04", tier, seed, ["UnifexModel.Props.C04_Atomic", "UnifexModel.Props.C04_AtomicInst"], parts,
-        rule="(schedule level) the real when_all/when_all_range/stop_when with manual leaves (each leaf has a stop callback on the token it was given and may complete from inside it), "
+        "C04", tier, seed, ["UnifexModel.Props.C04", "UnifexModel.Props.C04_Atomic", "UnifexModel.Props.C04_AtomicInst"], parts(),
+        rule="(event level) generated sender expressions + event scripts (see C05) with a stop request injected at a random position (before start, between completions, after); "
+             "leaves report whether they saw stop at start and every stop notification, which is compared with the Lean calculus; after each case the operation state is "
+             "destroyed and a late stop request is issued on the root source, so a callback left registered runs on freed memory and is caught by ASan. "
+             "(schedule level) the real when_all/when_all_range/stop_when with manual leaves (each leaf has a stop callback on the token it was given and may complete from inside it), "
              "completer threads and a thread requesting stop on the root receiver's source, under the controlled scheduler (DFS with preemption bound, random and PCT walks); "
              "the root receiver's token is a counting wrapper around inplace_stop_token: monitors = composite's stop callback still registered / running on another thread when the root "
              "receiver is signalled, callback invoked after the op-state was destroyed, op-state storage (poisoned 0xA5 on completion) written later, a running leaf that does not see "
              "stop_requested() after the first failure returned / after request_stop() returned; a case = one distinct observable history, non-trivial = admitted by the Lean model",
-        assumptions=["sequentially consistent atomics (memory orders ignored)", "the operation has been started before the threads race (stop before/during start(): event level)",
+        assumptions=["event level: external events serialised; leaves register exactly one callback on the token they are given",
+                     "schedule level: sequentially consistent atomics (memory orders ignored)", "schedule level: the operation has been started before the threads race (stop before/during start(): event level)",
                      "inplace_stop_source behaves as proved in C03 (deregistration waits for a callback running on another thread, never on its own thread)",
                      "parametric theorems (all N, all schedules) for when_all/when_all_range; stop_when per instance",
                      "stop_when's cancel_callback path signals the receiver while stopCallback_ is still engaged (dequeued, executing on the signalling thread): modelled as it is "
                      "(theorem stop_when_cancel_path_signals_with_callback_alive), shown as 'cb-alive' in histories, not counted as a violation"],
-        trusted_extra=["harness/rt (cooperative scheduler, __tsan_* shim)", "Core/Admit.lean trace-inclusion test", "g++ 12 -fsanitize=thread instrumentation"],
-        explanation="Props/C04_Atomic, when_all/when_all_range for ALL N >= 1, all configurations, all schedules (invariant induction): no_callback_registered_at_delivery, "
+        trusted_extra=["harness/evt/evt.cpp", "tools/evt.py", "g++ 12 ASan/UBSan", "harness/rt (cooperative scheduler, __tsan_* shim)", "Core/Admit.lean trace-inclusion test", "g++ 12 -fsanitize=thread instrumentation"],
+        explanation="Event level, Props/C04: stop_invariant_at_start + stop_invariant_always (the invariant StopInv holds after every event sequence, for every expression and script); "
+                    "reading lemmas stopped_leaf_notified, adaptor_forwards_stop, unstoppable_hides_stop, when_all_stops_children, stop_when_stops_other, successor_starts_stopped; "
+                    "deregistration-before-completion is decided on the implementation by the late-stop oracle under ASan. "
+                    "Schedule level, Props/C04_Atomic, when_all/when_all_range for ALL N >= 1, all configurations, all schedules (invariant induction): no_callback_registered_at_delivery, "
                     "destructed_before_signal, no_touch_after_delivery, failure_stops_running_siblings, failed_iff_winner, notified_when_notifier_done, stopped_at_delivery_if_failed, "
-                    "external_stop_reaches_children, stop_callback_requests_own_source, stop_when_cancel_path_signals_with_callback_alive (witness); Props/C04_AtomicInst, instances by kernel reflection (also deadlock-freedom of the blocking deregistrations): wa2_done_inl, "
-                    "wa2_err_inl, wa2_stop_inl, wa2_errinl_stop, sw_stop_inl, sw_trg_stop. Tie: trace inclusion of the real executions in the model configurations of the same name.")
->>>>>>> wt_c0104
+                    "external_stop_reaches_children, stop_callback_requests_own_source, stop_when_cancel_path_signals_with_callback_alive (witness); Props/C04_AtomicInst, instances by kernel reflection "
+                    "(also deadlock-freedom of the blocking deregistrations): wa2_done_inl, wa2_err_inl, wa2_stop_inl, wa2_errinl_stop, sw_stop_inl, sw_trg_stop. "
+                    "Tie: trace inclusion of the real executions in the model configurations of the same name.")
